@@ -22,7 +22,7 @@ from . import ir
 from .lower import Lowerer, explore, SERIES_EPS
 from .ring import EngineError, Frac, Ring
 
-PROVED, REFUTED, UNDECIDED, ERROR = "proved", "refuted", "undecided", "error"
+PROVED, REFUTED, UNDECIDED, ERROR, ASSUMED = "proved", "refuted", "undecided", "error", "assumed"
 
 
 @dataclass
@@ -110,7 +110,8 @@ def source_hash(fn):
 
 class Trace:
     def __init__(self, id, inputs, build, obligations, functions=(), decide=None, lemmas=(), max_paths=64,
-                 budget_s=120, post_bind=None, note="", sample_filter=None, expect_paths=None):
+                 budget_s=120, post_bind=None, note="", sample_filter=None, expect_paths=None, requires_nonzero=None,
+                 requires_smt=None, definedness=True, smt_timeout=10):
         self.id = id
         self.inputs = inputs
         self.build = build
@@ -123,6 +124,10 @@ class Trace:
         self.post_bind = post_bind
         self.note = note
         self.sample_filter = sample_filter
+        self.requires_nonzero = requires_nonzero  # callable(low, sorts) -> list of Frac/Poly declared nonzero by `requires`
+        self.requires_smt = requires_smt  # callable(rs: RingSMT, sorts) -> list of z3 constraints (extra requires for SMT queries)
+        self.definedness = definedness
+        self.smt_timeout = smt_timeout
 
     # ------------------------------------------------------------------
     def sx_inputs(self):
@@ -208,7 +213,20 @@ class Trace:
                     st, detail, cnt = UNDECIDED, "time budget exhausted", 0
                 except EngineError as e:
                     st, detail, cnt = UNDECIDED, f"engine: {e}", 0
+                if st in (REFUTED, UNDECIDED) and "budget" not in detail:
+                    # a normal form that differs on an infeasible path proves nothing: ask SMT whether the path exists
+                    try:
+                        if self._path_dead(low):
+                            st, detail = PROVED, "path infeasible under requires (SMT: path condition unsat), obligation vacuous there; normal forms: " + detail[:160]
+                    except Exception:
+                        pass
                 out[ob.id] = (st, detail, cnt, time.time() - t1)
+            if self.definedness:
+                t1 = time.time()
+                try:
+                    out["__definedness__"] = self._definedness(low) + (time.time() - t1,)
+                except Exception as e:  # never let the side analysis break a verdict
+                    out["__definedness__"] = (ASSUMED, f"definedness analysis failed: {type(e).__name__}: {e}", 0, time.time() - t1)
             return out, low
 
         try:
@@ -217,6 +235,11 @@ class Trace:
                 for ob in pending:
                     st, detail, cnt, secs = out[ob.id]
                     per_ob[ob.id].append((pstr, trace, st, detail, cnt, secs))
+                if "__definedness__" in out:
+                    st, detail, cnt, secs = out["__definedness__"]
+                    if cnt or st != PROVED:
+                        results.append(Result(self.id, "definedness: every divisor / radicand met on this path is in-domain", st,
+                                              "SMT+SYNTACTIC", pstr, secs, detail, None, cnt))
         except EngineError as e:
             results.append(Result(self.id, "paths", UNDECIDED, "ALG", "", time.time() - t0, f"engine: {e}"))
             return results
@@ -241,7 +264,111 @@ class Trace:
             return ob.entries
         return [(i, j) for i in range(len(L)) for j in range(len(L[0]))]
 
+    def _sorts(self):
+        return {s.name: s for s in self.inputs}
+
+    def _smt_context(self, low):
+        from .smt import RingSMT
+        rs = RingSMT(low)
+        assum = rs.path_constraints()
+        if self.requires_smt:
+            assum += list(self.requires_smt(rs, self._sorts()))
+        assum = assum + rs.atom_constraints()
+        # obligations are stated where the function is defined: every divisor met is nonzero
+        # (definedness itself is the separate obligation/assumption reported per path)
+        seen = set()
+        for f in low.R.assumed_nonzero:
+            if f.key() not in seen:
+                seen.add(f.key())
+                assum.append(rs.poly(f) != 0)
+        return rs, assum
+
+    def _path_dead(self, low):
+        if not any(how in ("path",) for _, _, how in low.trace):
+            return False
+        cached = getattr(low, "_dead", None)
+        if cached is not None:
+            return cached
+        from . import smt
+        import z3
+        rs, assum = self._smt_context(low)
+        st, _, _, _ = smt.check(assum, z3.BoolVal(False), self.smt_timeout, want_model=False)
+        low._dead = st == "proved"
+        return low._dead
+
+    def _definedness(self, low):
+        from . import smt
+        R = low.R
+        declared = set()
+        if self.requires_nonzero:
+            for x in self.requires_nonzero(low, self._sorts()):
+                p = x.num if isinstance(x, Frac) else x
+                c, facs = R.factor(p)
+                for f, e in facs:
+                    declared.add(f.key())
+        seen = {}
+        for f in R.assumed_nonzero:
+            seen.setdefault(f.key(), f)
+        n_syn = n_decl = n_smt = 0
+        open_ = []
+        rs = assum = None
+        pos = getattr(R, "positive", set())
+        for k, f in seen.items():
+            if R.syntactically_nonneg(f, strict=True):
+                n_syn += 1
+                continue
+            if len(f.t) == 1 and all(i in pos for i, e in R._unpack(next(iter(f.t)))):
+                n_syn += 1
+                continue
+            if k in declared:
+                n_decl += 1
+                continue
+            if rs is None:
+                from .smt import RingSMT
+                rs = RingSMT(low)
+                assum = rs.path_constraints()
+                if self.requires_smt:
+                    assum += list(self.requires_smt(rs, self._sorts()))
+                assum = assum + rs.atom_constraints()
+            st, model, secs, solver = smt.check(assum, rs.poly(f) != 0, self.smt_timeout)
+            if st == "proved":
+                n_smt += 1
+            else:
+                open_.append(f"{R.show(f, 6)} [{st}]")
+        total = len(seen)
+        detail = f"{total} distinct divisor factors: {n_syn} syntactically positive, {n_decl} excluded by requires, {n_smt} proved nonzero by SMT under the path condition"
+        if open_:
+            return ASSUMED, detail + f"; {len(open_)} NOT discharged (assumed nonzero): " + "; ".join(open_[:6]), total
+        return PROVED, detail, total
+
+    def _check_ineq(self, low, onodes, ob):
+        from . import smt
+        import z3
+        L = onodes[ob.lhs]
+        Rm = onodes[ob.rhs] if ob.rhs is not None else None
+        goals = []
+        cnt = 0
+        vals = []
+        for (i, j) in self._entries(onodes, ob):
+            a = low.value(L[i][j])
+            b = low.value(Rm[i][j]) if Rm is not None else Frac.of(low.R, 0)
+            vals.append((a, b))
+            cnt += 1
+        rs, assum = self._smt_context(low)
+        for a, b in vals:
+            fa, fb = rs.frac(a), rs.frac(b)
+            goals.append({"le": fa <= fb, "lt": fa < fb, "ge": fa >= fb, "gt": fa > fb, "ne": fa != fb}[ob.kind])
+        assum = assum + rs.atom_constraints()
+        st, model, secs, solver = smt.check(assum, z3.And(goals) if len(goals) > 1 else goals[0], max(self.smt_timeout, 20))
+        if st == "proved":
+            return PROVED, f"{cnt} entries: {ob.kind} proved by {solver} under requires + path condition ({secs:.2f}s)", cnt
+        if st == "refuted":
+            return REFUTED, f"{solver} model violates {ob.kind}: " + str(model)[:300], cnt
+        return UNDECIDED, f"SMT {solver}: unknown after {secs:.1f}s", cnt
+
     def _check_ob(self, low, onodes, outs, ob):
+        if ob.kind in ("le", "lt", "ge", "gt", "ne"):
+            return self._check_ineq(low, onodes, ob)
         L = onodes[ob.lhs]
         Rm = onodes[ob.rhs] if ob.rhs is not None else None
         if Rm is not None and (len(L) != len(Rm) or len(L[0]) != len(Rm[0])):
@@ -351,6 +478,12 @@ class Trace:
                 a = float(A[i][j])
                 b = float(B[i][j]) if B is not None else 0.0
                 d = abs(a - b) if not (math.isnan(a) or math.isnan(b)) else math.inf
+                if ob.kind in ("le", "lt"):
+                    d = max(0.0, a - b) if not math.isinf(d) else d
+                elif ob.kind in ("ge", "gt"):
+                    d = max(0.0, b - a) if not math.isinf(d) else d
+                elif ob.kind == "ne":
+                    d = 1.0 if a == b else 0.0
                 if d > worst:
                     worst, where = d, (i, j, a, b)
             if worst > ob.tol and (best is None or worst > best[0]):
@@ -374,7 +507,7 @@ class Trace:
         msgs = []
         failing = False
         for ob in self.obligations:
-            if ob.kind != "eq":
+            if ob.kind not in ("eq", "le", "lt", "ge", "gt"):
                 continue
             A = num[ob.lhs]
             B = num[ob.rhs] if ob.rhs is not None else None
@@ -388,7 +521,12 @@ class Trace:
                         continue
                     a = float(A[i][j])
                     b = float(B[i][j]) if B is not None else 0.0
-                    if math.isnan(a) or math.isnan(b) or abs(a - b) > (tol or ob.tol):
+                    dd = abs(a - b)
+                    if ob.kind in ("le", "lt"):
+                        dd = max(0.0, a - b)
+                    elif ob.kind in ("ge", "gt"):
+                        dd = max(0.0, b - a)
+                    if math.isnan(a) or math.isnan(b) or dd > (tol or ob.tol):
                         failing = True
                         msgs.append(f"{ob.id}[{i},{j}]: observed {a!r} expected {b!r}")
         return failing, "; ".join(msgs[:6])
